@@ -252,7 +252,7 @@ theorem judge_ok {inputs : List Expr} {cert : String} (h : judge inputs cert = "
         · split at h
           · exact absurd h (by decide)
           · split at h
-            · exact absurd h (by decide)
+            · split at h <;> exact absurd h (by decide)
             · split at h
               · assumption
               · exact absurd h (by decide)
@@ -304,7 +304,7 @@ theorem MC_lawful (σ : String → ℂ) : Lawful (MC σ) where
   app_odd := by
     intro h hh v
     simp only [oddHeads, List.mem_cons, List.not_mem_nil, or_false] at hh
-    rcases hh with rfl | rfl | rfl | rfl | rfl | rfl | rfl | rfl | rfl | rfl | rfl <;>
+    rcases hh with rfl | rfl | rfl | rfl | rfl | rfl | rfl | rfl | rfl | rfl | rfl | rfl <;>
       simp [MC, Complex.sin_neg]
   app_even := by
     intro h hh v
